@@ -96,6 +96,11 @@ func (c *Conn) ReadFrom(r io.Reader) (int64, error) {
 // Close closes the connection.
 // Any blocked Read or Write operations will be unblocked and return errors.
 func (c *Conn) Close() error {
+	// The local buckets were created for this connection only; stop their drain loops.
+	for _, b := range c.LocalBuckets {
+		b.ReadBucket.Close()
+		b.WriteBucket.Close()
+	}
 	return c.conn.Close()
 }
 
